@@ -74,8 +74,8 @@ func DecodeBlock(src []byte, dstLen int, dict []byte) BlockResult {
 		s.TokenPos = si
 		tok := src[si]
 		si++
-		lit := int(tok >> 4)
-		if lit == 15 {
+		lit64 := int64(tok >> 4) // (64-bit sums: the harness also runs built for 32-bit platforms)
+		if lit64 == 15 {
 			for {
 				if si >= len(src) {
 					return fail(ETruncated)
@@ -83,18 +83,19 @@ func DecodeBlock(src []byte, dstLen int, dict []byte) BlockResult {
 				x := src[si]
 				si++
 				s.ExtLit++
-				lit += int(x)
+				lit64 += int64(x)
 				if x != 255 {
 					break
 				}
 			}
 		}
-		if si+lit > len(src) {
+		if int64(si)+lit64 > int64(len(src)) {
 			return fail(ETruncated)
 		}
-		if len(out)+lit > dstLen {
+		if int64(len(out))+lit64 > int64(dstLen) {
 			return fail(EOutputTooBig)
 		}
+		lit := int(lit64)
 		s.LitLen, s.LitPos = lit, si
 		out = append(out, src[si:si+lit]...)
 		si += lit
@@ -116,7 +117,7 @@ func DecodeBlock(src []byte, dstLen int, dict []byte) BlockResult {
 		if off == 0 {
 			return fail(EZeroOffset)
 		}
-		ml := nib + 4
+		ml64 := int64(nib + 4)
 		if nib == 15 {
 			for {
 				if si >= len(src) {
@@ -125,7 +126,7 @@ func DecodeBlock(src []byte, dstLen int, dict []byte) BlockResult {
 				x := src[si]
 				si++
 				s.ExtMatch++
-				ml += int(x)
+				ml64 += int64(x)
 				if x != 255 {
 					break
 				}
@@ -134,9 +135,10 @@ func DecodeBlock(src []byte, dstLen int, dict []byte) BlockResult {
 		if off > len(out)+len(dict) {
 			return fail(EOffsetBefore)
 		}
-		if len(out)+ml > dstLen {
+		if int64(len(out))+ml64 > int64(dstLen) {
 			return fail(EOutputTooBig)
 		}
+		ml := int(ml64)
 		s.HasMatch, s.Offset, s.MatchLen, s.OutPos = true, off, ml, len(out)
 		s.Overlap = off < ml
 		for k := 0; k < ml; k++ {
